@@ -69,7 +69,14 @@ Definition readonly_whitelist : list (string * string) :=
        it again; so no append ever has the shared slice as its destination *)
     ("parse.textMimeBytes", "via local mediatype: WRITE append-dst");
     ("parse.textMimeBytes", "via local mediatype: alias:assign-rhs");
-    ("parse.textMimeBytes", "via local mediatype: alias:return") ].
+    ("parse.textMimeBytes", "via local mediatype: alias:return");
+    (* xml/lex.go shiftDOCTYPEText (added by the repair ae017a9): the two constant delimiters "-->" and "?>" are
+       assigned to the local `skipTo`, whose only use is `l.at(skipTo...)`; the Lexer method `at` (xml/lex.go) ranges over its
+       variadic argument and compares each byte with Peek(i): it neither writes nor retains the slice *)
+    ("xml.commentEndBytes", "alias:assign-rhs");
+    ("xml.commentEndBytes", "via local skipTo: arg:(method).at");
+    ("xml.piEndBytes", "alias:assign-rhs");
+    ("xml.piEndBytes", "via local skipTo: arg:(method).at") ].
 
 Definition pair_eqb (a b : string * string) : bool := String.eqb (fst a) (fst b) && String.eqb (snd a) (snd b).
 
